@@ -2,6 +2,8 @@ package main
 
 import (
 	"bytes"
+	"crypto/sha256"
+	"encoding/hex"
 	"encoding/json"
 	"flag"
 	"fmt"
@@ -37,6 +39,7 @@ type PropDef struct {
 	Assumptions []string
 	Trusted     []string
 	Note        string
+	Level       string // evidence level; default "proof"
 }
 
 // Unwinder is a family of complete-unwinding jobs (one per finite configuration). Jobs are
@@ -216,6 +219,7 @@ func cmdCheck(args []string) {
 	byBackend := map[string]int{}
 	var lines []string
 	total := 0
+	knownPrinted := map[string]bool{}
 	for _, r := range all {
 		n := 1
 		if r.Count > 1 {
@@ -229,8 +233,13 @@ func cmdCheck(args []string) {
 			continue
 		}
 		if k := isKnown(r.Name); k != nil {
-			lines = append(lines, fmt.Sprintf("KNOWN-FINDING: property=%s %s (%s)", def.ID, k.What, r.Name))
+			if !knownPrinted[k.What] {
+				lines = append(lines, fmt.Sprintf("KNOWN-FINDING: property=%s %s (%s)", def.ID, k.What, r.Name))
+				knownPrinted[k.What] = true
+			}
 			knownSeen = append(knownSeen, r.Name)
+			total -= n // a recorded finding is reported separately, not as an (un)discharged obligation
+			byKind[r.Kind] -= n
 			continue
 		}
 		violations++
@@ -293,7 +302,7 @@ func cmdCheck(args []string) {
 		"property_id": def.ID,
 		"tier":        *tier,
 		"seed":        seed,
-		"level":       "proof",
+		"level":       levelOf(def),
 		"wall_s":      round3(time.Since(t0).Seconds()),
 		"violations":  violations,
 		"assumptions": assumptions,
@@ -453,6 +462,65 @@ func tail(s string, n int) string {
 
 // runUnwinder distributes the jobs of u over worker processes (`govc jobs <unwinder> <job>...`).
 func runUnwinder(c *checkCtx, u *Unwinder) []oblRes {
+	// results are cached under a key derived from the CURRENT sources of /repo (and of the
+	// verifier itself): several properties share one unwinding family
+	key := treeKey(c.Repo)
+	cacheFile := filepath.Join(verifDir, "build", "cache", key, u.Name+"-"+c.Tier+".json")
+	if os.Getenv("GOVC_NOCACHE") == "" && os.Getenv("GOVC_QRV") == "" {
+		if data, err := os.ReadFile(cacheFile); err == nil {
+			var out []oblRes
+			if json.Unmarshal(data, &out) == nil && len(out) > 0 {
+				c.Notes = append(c.Notes, "unwinding family "+u.Name+": results reused from this tree's cache (same source hash "+key[:12]+")")
+				return out
+			}
+		}
+	}
+	out := runUnwinder0(c, u)
+	if os.Getenv("GOVC_QRV") == "" {
+		os.MkdirAll(filepath.Dir(cacheFile), 0o755)
+		if data, err := json.Marshal(out); err == nil {
+			os.WriteFile(cacheFile, data, 0o644)
+		}
+	}
+	return out
+}
+
+var treeKeyMemo = map[string]string{}
+
+// treeKey hashes every .go file and go.mod of the repository working tree plus the verifier binary.
+func treeKey(repo string) string {
+	if k, ok := treeKeyMemo[repo]; ok {
+		return k
+	}
+	h := sha256.New()
+	filepath.Walk(repo, func(path string, info os.FileInfo, err error) error {
+		if err != nil {
+			return nil
+		}
+		if info.IsDir() {
+			if info.Name() == ".git" {
+				return filepath.SkipDir
+			}
+			return nil
+		}
+		if strings.HasSuffix(path, ".go") || info.Name() == "go.mod" {
+			data, _ := os.ReadFile(path)
+			fmt.Fprintf(h, "%s %d\n", strings.TrimPrefix(path, repo), len(data))
+			h.Write(data)
+		}
+		return nil
+	})
+	if self, err := os.Executable(); err == nil {
+		if data, err := os.ReadFile(self); err == nil {
+			h.Write(data)
+		}
+	}
+	k := hex.EncodeToString(h.Sum(nil))
+	treeKeyMemo[repo] = k
+	return k
+}
+
+func runUnwinder0(c *checkCtx, u *Unwinder) []oblRes {
 	jobs := u.Jobs(c.Tier)
 	nw := 14
 	if len(jobs) < nw {
@@ -553,4 +621,11 @@ func wildMatch(pat, s string) bool {
 		s = s[i+len(p):]
 	}
 	return strings.HasSuffix(s, parts[len(parts)-1])
+}
+
+func levelOf(d *PropDef) string {
+	if d.Level != "" {
+		return d.Level
+	}
+	return "proof"
 }
